@@ -104,6 +104,18 @@ DIRECTED = [
     {'prog': [_p('a', r='T')], 'cfg': {'tdiag': 'raise'}},
     {'prog': [_p('a')], 'cfg': {'start': _p('start', r='T')}},
     {'prog': [_p('a')], 'cfg': {'start': _p('start', r='K')}},
+    # phases wrapped by @monitors (a sampling thread next to the body)
+    {'prog': [_p('a', r='X', mon=1), _p('b')], 'cfg': {}},
+    {'prog': [_p('a', r='X', mon=1), _p('b')], 'cfg': {'fexc': 'exact'}},
+    {'prog': [_p('a', r='F', mon=1)], 'cfg': {}},
+    {'prog': [_p('a', r='S', mon=1), _p('b')], 'cfg': {}},
+    {'prog': [_p('a', r='BAD', mon=1)], 'cfg': {}},
+    {'prog': [_p('a', r='T', mon=1), _p('b')], 'cfg': {}},
+    {'prog': [_p('a', r='K', mon=1)], 'cfg': {}},
+    {'prog': [_p('a', mon=1, m='fail')], 'cfg': {}},
+    {'prog': [['T', 't', [_p('a', r='U', mon=1), _p('b')]], _p('c')], 'cfg': {}},
+    {'prog': [['G', [_p('s', r='X', mon=1)], [_p('m')], [_p('t')]]], 'cfg': {}},
+    {'prog': [['G', [], [_p('m')], [_p('t', r='X', mon=1)]]], 'cfg': {}},
     # failures that leave no phase record at all
     {'prog': [['T', 't0', [['C', 'c1', ['NOT_ANY', ['D2']], 'U']]]], 'cfg': {}},
     {'prog': [['T', 't0', [['C', 'c1', ['NOT_ANY', ['D2']], 'U'],
@@ -131,8 +143,13 @@ def enumerated(tier):
 
 def sampled(tier, rng):
   while True:
-    yield {'prog': pm.gen_program(rng, depth=3, width=4, rich=True),
-           'cfg': pm.gen_cfg(rng)}
+    prog = pm.gen_program(rng, depth=3, width=4, rich=True)
+    cfg = pm.gen_cfg(rng)
+    if rng.random() < .15:
+      phases = [n for n, _ in pm.walk(prog) if n[0] == 'P']
+      if phases:
+        rng.choice(phases)[2]['mon'] = 1    # this phase is wrapped by @monitors
+    yield {'prog': prog, 'cfg': cfg}
 
 
 # ------------------------------------------------------------- PASS implication
